@@ -10,7 +10,7 @@
    The [*_index_ok], [*_store_ok], [*_records_ok], [plan_count_ok] premises are invariants of the keepers,
    named in Proofs/GenesisRT.v and proved separately from C12 (index / record invariants). *)
 From Hub Require Import Base.Prelude Base.Arith Model.Types Model.Keeper Model.Handlers Model.Hooks Model.Step Model.Genesis.
-From Hub Require Import Proofs.Tactics Proofs.Sorting Proofs.GenesisRT.
+From Hub Require Import Proofs.Tactics Proofs.Sorting Proofs.GenesisRT Proofs.GenesisReach.
 
 (* the property as stated (Definition only: it is false) *)
 Definition C12_statement : Prop := C12_full_statement.
@@ -49,6 +49,29 @@ Proof. exact subscriptions_always_lost. Qed.
 (* export and import never panic on a consistent store *)
 Theorem C12_roundtrip_defined : forall s, genesis_defined s -> exists v s', roundtrip s = Ok (v, s').
 Proof. exact roundtrip_defined. Qed.
+
+(* FOR EVERY REACHABLE STATE (any genesis, any history): the export / import round trip is defined and gives back, module by
+   module, exactly the records and the rebuilt indices of providers, nodes (with the lease queue), plans (with the provider
+   index, the node links and the counter), deposits, sessions (with all five indices), swaps, the inflation schedule and the
+   SDK mint parameters, and all parameter sets -- the premises of the per-module theorems below are invariants of every
+   history (Proofs/GenesisReach.v).  What is lost is exactly the subscription module's state (known finding F5). *)
+Theorem C12_reachable_roundtrip : forall g ops s, run (init g) ops = RunOk s ->
+  exists v s', roundtrip s = Ok (v, s') /\
+    deposits s' = deposits s /\
+    prov_act s' = prov_act s /\ prov_inact s' = prov_inact s /\
+    node_act s' = node_act s /\ node_inact s' = node_inact s /\ node_q s' = node_q s /\
+    plan_act s' = plan_act s /\ plan_inact s' = plan_inact s /\ plan_prov s' = plan_prov s /\
+    node_plan s' = node_plan s /\ plan_count s' = plan_count s /\
+    sessions s' = sessions s /\ sess_q s' = sess_q s /\ sess_acc s' = sess_acc s /\ sess_node s' = sess_node s /\
+    sess_sub s' = sess_sub s /\ sess_alloc s' = sess_alloc s /\
+    swaps s' = swaps s /\ inflations s' = inflations s /\
+    mint_max s' = mint_max s /\ mint_min s' = mint_min s /\ mint_rate s' = mint_rate s /\ mint_inflation s' = mint_inflation s /\
+    pars s' = pars s /\
+    subs s' = ∅ /\ allocs s' = ∅ /\ payouts s' = ∅ /\ sub_count s' = 0.
+Proof. exact reachable_roundtrip. Qed.
+
+Theorem C12_reachable_genesis_defined : forall g ops s, run (init g) ops = RunOk s -> genesis_defined s.
+Proof. exact reachable_genesis_defined. Qed.
 
 (** what holds, module by module: records and rebuilt indices agree, the exported part validates *)
 
@@ -115,6 +138,8 @@ Print Assumptions C12_refuted_session_counter.
 Print Assumptions C12_refuted_continuation_halts.
 Print Assumptions C12_subscriptions_always_lost.
 Print Assumptions C12_roundtrip_defined.
+Print Assumptions C12_reachable_roundtrip.
+Print Assumptions C12_reachable_genesis_defined.
 Print Assumptions C12_partial_deposit.
 Print Assumptions C12_partial_provider.
 Print Assumptions C12_partial_node.
